@@ -204,7 +204,11 @@ class Lowerer:
         elif k in ('TypeAliasDecl', 'TypedefDecl'):
             q = '::'.join(scope + [n['name']])
             ty = n.get('type', {})
-            self.te.typedefs.setdefault(q, ty.get('desugaredQualType') or ty.get('qualType'))
+            und = ty.get('desugaredQualType') or ty.get('qualType')
+            self.te.typedefs.setdefault(q, und)
+            parts = q.split('::')
+            for i in range(1, len(parts) - 1):
+                self.te.typedefs.setdefault('::'.join(parts[i:]), und)
         elif k == 'VarDecl':
             q = self.scope_qual(n, scope, n.get('name'))
             prev = n.get('previousDecl')
